@@ -64,7 +64,7 @@ func verEq(got version.Version, want mVersion) bool {
 	return got.Epoch == want.Epoch && got.Version == want.Upstream && got.Revision == want.Revision
 }
 
-var words = []string{"fix", "the", "build", "on", "armhf", "closes", "new", "upstream", "release", "#123456", "--", "update", "d/control:", "é", "naïve", "日本", "a:b", "x=y", "(foo)", "[bar]"}
+var words = []string{"fix", "the", "build", "on", "armhf", "closes", "new", "upstream", "release", "#123456", "--", "update", "d/control:", "é", "naïve", "日本", "a:b", "x=y", "(foo)", "[bar]", "qualità", "Å"}
 
 func genWords(t *rt.Tape, lo, hi int, label string) string {
 	n := t.Range(lo, hi, label+".n")
